@@ -21,7 +21,7 @@ import vcommon as V
 ID = "C07"
 
 DESIGN_QUICK = ["MCDesignA"]
-DESIGN_THOROUGH = ["MCDesignA", "MCDesignB", "MCDesignD", "MCDesignC"]
+DESIGN_THOROUGH = ["MCDesignA", "MCDesignB", "MCDesignE", "MCDesignD", "MCDesignC"]
 MUTANTS = [("MCMutNoTimeout", "Deadlock"), ("MCMutReleaseEarly", "Serializable"),
            ("MCMutNoRestore", "QuiescentAgree"), ("MCMutCommitLeak", "NoLeak")]
 # generator graphs: (cfg, family, NA, LockOf, full cover in quick?)
